@@ -492,7 +492,10 @@ Definition exec (w : world) (c : call) : world * reply :=
 Definition cprog := prog call reply.
 Definition crun {A} (p : cprog A) (s : ist call world key) := run call reply world key key_eqb key_of exec fail_reply p s.
 Definition crund {A} (p : cprog A) (s : dst call world) := rund call reply world exec fail_reply p s.
-Definition crunk {A} (p : cprog A) (w : world) (k : option nat) := runk call reply world exec fail_reply p w k.
+(* fault positions are the calls to the store, the resource manager, the engine, the WAL and the locks;
+   a send on a result channel is not one *)
+Definition is_faultable (c : call) : bool := match c with Send _ => false | _ => true end.
+Definition crunk {A} (p : cprog A) (w : world) (k : option nat) := runk call reply world exec fail_reply is_faultable p w k.
 Definition cfault := fault key.
 Definition mk_fault (m : meth) (t : target) (ord : nat) : cfault := mkFault (KCall (m, t)) ord FailBefore.
 
